@@ -32,7 +32,9 @@ RULE = (
     "and all, and some variable's depth dimension is not leading. Distinct = case hash."
 )
 ASSUMPTIONS = [
-    "depth coordinates are monotonic with >= 2 levels and carry positive: up/down in lower case",
+    "depth coordinates are monotonic with >= 2 levels and carry positive: up/down in lower case, "
+    "or no positive attribute at all with every level on one side of zero (the documented guess "
+    "from the values then defines the sign convention)",
     "static sea floor: within one (depth dimension, spatial dimensions) group all variables and "
     "all time steps share the wet/dry pattern (what ocean_floor documents)",
     "variables with a depth dimension but no horizontal dimension are not generated (nothing is "
@@ -69,17 +71,17 @@ def depth_coordinate(draw, name, dim, with_bounds=False, positive=("up", "down")
 
 
 @st.composite
-def cases(draw, convs=S.ALL_CONVS):
+def cases(draw, convs=S.ALL_CONVS, unmarked=False):
     conv = draw(st.sampled_from(list(convs)))
     spec = {"conv": conv, "geom": draw(S.geometry(conv, max_n=3, max_j=2, max_i=3,
                                                    allow_bowtie=False))}
     names = DEPTH_NAMES.get(conv, GENERIC_DEPTHS)
-    n_depths = draw(st.integers(1, 2))
+    n_depths = 1 if unmarked else draw(st.integers(1, 2))
     spec["depths"] = [draw(depth_coordinate(nm, dm)) for nm, dm in names[:n_depths]]
     for dc in spec["depths"]:
         if dc["name"] == dc["dim"]:
             dc["as"] = "coord"
-    if conv not in DEPTH_NAMES and draw(st.integers(0, 3)) == 0:
+    if conv not in DEPTH_NAMES and not unmarked and draw(st.integers(0, 3)) == 0:
         # the same levels described a second time on the same dimension, as elevation instead
         # of depth (or the other way round): opposite sign convention, negated values
         first = spec["depths"][0]
@@ -87,8 +89,26 @@ def cases(draw, convs=S.ALL_CONVS):
                     positive="up" if first["positive"] == "down" else "down", **{"as": "var"})
         twin.pop("bounds", None)
         spec["depths"].append(twin)
+    for dc in spec["depths"]:
+        # a coordinate without the positive attribute (a common omission): its sign convention
+        # is then the documented guess from its values; only unambiguous coordinates (all values
+        # on one side of zero) are generated.  SHOC coordinates are known by name and need no
+        # marker at all, the generic detection needs one of its other markers.
+        if dc["name"] != "elevation" and len(spec["depths"]) == 1 and (
+                unmarked or draw(st.integers(0, 2)) == 0):
+            if draw(st.booleans()):
+                offset = max(0.0, -min(dc["values"])) + 0.25          # all levels above zero
+            else:
+                offset = -(max(0.0, max(dc["values"])) + 0.25)        # all levels below zero
+            dc["values"] = [v + offset for v in dc["values"]]
+            dc["positive"] = None
+            markers = [{"axis": "Z"}, {"cartesian_axis": "Z"}, {"coordinate_type": "Z"},
+                       {"standard_name": "depth"}]
+            if conv in DEPTH_NAMES:
+                markers = [{}, {}, {}, {}] + markers
+            dc["extra_attrs"] = draw(st.sampled_from(markers))
     extra = {dc["dim"]: len(dc["values"]) for dc in spec["depths"]}
-    with_time = draw(st.booleans())
+    with_time = True if unmarked else draw(st.booleans())
     tname, tdim = TIME_NAMES.get(conv, ("time", "time"))
     if with_time:
         nt = draw(st.integers(1, 3))
@@ -136,8 +156,10 @@ def cases(draw, convs=S.ALL_CONVS):
                       "dtype": "f8", "fill": None})
     spec["vars"] = variables
     spec["mode"] = draw(st.sampled_from(["decoded", "dask", "file"])) if with_time else draw(st.sampled_from(["raw", "decoded", "dask", "file"]))
-    route = draw(st.sampled_from(["function", "accessor"])) if with_time else "function"
-    return {"spec": spec, "route": route}
+    route = draw(st.sampled_from(["function", "accessor", "accessor", "accessor"] if unmarked else
+                                 ["function", "accessor", "accessor"])) if with_time else "function"
+    return {"spec": spec, "route": route,
+            "names_as": draw(st.sampled_from(["list", "list", "tuple", "iterator", "generator", "data_arrays"]))}
 
 
 def check_case(case, ctx):
@@ -158,7 +180,10 @@ def check_case(case, ctx):
             out = conv.ocean_floor()
         else:
             non_spatial = [spec["time"]["name"]] if spec.get("time") else None
-            out = depth_ops.ocean_floor(ds, depth_names, non_spatial_variables=non_spatial)
+            given = {"list": list, "tuple": tuple, "iterator": iter,
+                     "generator": lambda names: (n for n in list(names)),
+                     "data_arrays": lambda names: [ds[n] for n in names]}[case.get("names_as", "list")]
+            out = depth_ops.ocean_floor(ds, given(depth_names), non_spatial_variables=non_spatial)
     what = f"ocean_floor via {case['route']}"
     sizes = specs.dim_sizes(spec)
     depth_dims = {dc["dim"] for dc in spec["depths"]}
@@ -230,6 +255,9 @@ def check_case(case, ctx):
     rich = False
     for dc in spec["depths"]:
         ctx.label(f"positive:{dc['positive']}")
+        if dc["positive"] is None:
+            marker = "+".join(sorted(dc.get("extra_attrs") or {})) or "no_marker_at_all"
+            ctx.label(f"no_positive_attribute:{spec['conv']}:{marker}:{case['route']}")
         ctx.label("stored:" + ("deep_to_shallow" if specs.levels_shallow_to_deep(dc)[0] != 0 else "shallow_to_deep"))
         nz = len(dc["values"])
         for kind, counts in spec["floors"][dc["name"]].items():
@@ -241,5 +269,7 @@ def check_case(case, ctx):
     ctx.nontrivial(rich and not_leading)
 
 
-SUBS = [Sub("ocean_floor", lambda tier: cases(), check_case, quick=150, thorough=1000)]
+SUBS = [Sub("ocean_floor", lambda tier: cases(), check_case, quick=150, thorough=1000),
+        Sub("depth_coordinate_without_positive_attribute", lambda tier: cases(unmarked=True), check_case,
+            quick=80, thorough=400)]
 MATCHERS = {}
